@@ -25,6 +25,7 @@ import (
 	"runtime"
 	"runtime/debug"
 	"runtime/metrics"
+	"runtime/pprof"
 	"sort"
 	"strconv"
 	"strings"
@@ -266,6 +267,8 @@ type inputCase struct {
 	// expect: "" none, "reject" documented limit exceeded, "accept" at the limit
 	expect string
 	name   string
+	// big: the mutation introduces a 4- or 8-byte var-int prefix or a count >= 2^16
+	big bool
 }
 
 // evalInput returns the outcome class, whether the input was accepted, and findings.
@@ -288,14 +291,15 @@ func (c *codec) evalInput(ic *inputCase) (string, bool, []finding) {
 		case "limit":
 			class, lb = "limit", ic.name
 		}
-		key := fmt.Sprintf("%s:%s:%s", class, oracle, c.name)
-		switch oracle {
-		case "allocation-over-ceiling":
-			key = fmt.Sprintf("%s:%s", oracle, c.name)
-		case "panic":
+		key := fmt.Sprintf("%s:%s", oracle, c.name)
+		switch {
+		case oracle == "panic":
 			key = "panic:" + detail[1:strings.Index(detail, "]")]
 			detail = "decoder " + c.name + ": " + detail
-		default:
+		case class == "limit":
+			key = fmt.Sprintf("limit:%s:%s:%s", oracle, c.name, lb)
+		case oracle == "hash-differs" || oracle == "size-differs":
+			key = fmt.Sprintf("%s:%s:%s", class, oracle, c.name)
 			if lb != "" {
 				key += ":" + lb
 			}
@@ -393,11 +397,20 @@ func seedsOf(c *codec, th bool) []seedT {
 	}
 	seen := map[string]bool{}
 	var out []seedT
+	sigs := map[string]bool{}
 	add := func(i int, b []byte) {
 		if len(b) > maxLen || len(b) == 0 || seen[string(b)] {
 			return
 		}
 		seen[string(b)] = true
+		if c.sig != nil && !th {
+			// quick: one seed per layout
+			sg := c.sig(b)
+			if sigs[sg] {
+				return
+			}
+			sigs[sg] = true
+		}
 		out = append(out, seedT{i, b})
 	}
 	for i, v := range c.gen(th) {
@@ -425,9 +438,10 @@ func vk2[T any](th bool, q, t T) T {
 // enumerate calls f for every input of shard `shard` of `nshards` of the codec.
 // The order is deterministic. f returns false to stop.
 func enumerate(c *codec, th bool, shard, nshards int, f func(ic *inputCase) bool) {
-	emit := func(kind string, off int, seed, input []byte) bool {
-		return f(&inputCase{kind: kind, off: off, seed: seed, input: input})
+	emitB := func(kind string, off int, seed, input []byte, big bool) bool {
+		return f(&inputCase{kind: kind, off: off, seed: seed, input: input, big: big})
 	}
+	emit := func(kind string, off int, seed, input []byte) bool { return emitB(kind, off, seed, input, false) }
 	if shard == 0 {
 		// all byte strings up to length 2 (3 for the cheap decoders in thorough)
 		maxLen := 2
@@ -494,7 +508,7 @@ func enumerate(c *codec, th bool, shard, nshards int, f func(ic *inputCase) bool
 				}
 				m := append([]byte{}, s...)
 				m[i] = x
-				if !emit("subst", i, s, m) {
+				if !emitB("subst", i, s, m, x >= 0xfe) {
 					return
 				}
 			}
@@ -506,7 +520,7 @@ func enumerate(c *codec, th bool, shard, nshards int, f func(ic *inputCase) bool
 				if off == len(s) {
 					off = len(s) - 1
 				}
-				if !emit("insert", off, s, m) {
+				if !emitB("insert", off, s, m, x >= 0xfe) {
 					return
 				}
 			}
@@ -533,7 +547,7 @@ func enumerate(c *codec, th bool, shard, nshards int, f func(ic *inputCase) bool
 						}
 					}
 				}
-				if !emit("varint-nonminimal", i, s, m) {
+				if !emitB("varint-nonminimal", i, s, m, form >= 0xfe) {
 					return
 				}
 			}
@@ -553,7 +567,7 @@ func enumerate(c *codec, th bool, shard, nshards int, f func(ic *inputCase) bool
 			hugeLeft--
 			for _, i := range sites {
 				for _, cv := range hugeCounts {
-					if !emit("varint-count-huge", i, s, cat(s[:i], varint(cv), s[i+1:])) {
+					if !emitB("varint-count-huge", i, s, cat(s[:i], varint(cv), s[i+1:]), true) {
 						return
 					}
 				}
@@ -579,6 +593,7 @@ type job struct {
 	Thorough bool   `json:"thorough"`
 	Dir      string `json:"dir"`
 	Deadline int64  `json:"deadline_unix"`
+	SkipBig  bool   `json:"skip_big"` // set after a hang/death: skip mutants that introduce long var-int prefixes
 	Replay   string `json:"replay_hex,omitempty"`
 	ReplayIC *inputCase `json:"-"`
 }
@@ -591,6 +606,7 @@ type jobResult struct {
 	Capped    bool             `json:"capped"`
 	MaxAlloc  uint64           `json:"max_alloc"`
 	MaxAllocI string           `json:"max_alloc_input"`
+	Skipped   int64            `json:"skipped"`
 	MaxNs     int64            `json:"max_ns"`
 	MaxNsI    string           `json:"max_ns_input"`
 	CPUSec    float64          `json:"cpu_s"`
@@ -627,7 +643,7 @@ func openMarker(path string, create bool) (*marker, error) {
 
 // set announces the input about to be decoded.
 func (k *marker) set(idx int, ic *inputCase) {
-	desc := fmt.Sprintf("%s|%d|%s", ic.kind, ic.off, ic.name)
+	desc := ic.kind + "|" + strconv.Itoa(ic.off) + "|" + ic.name
 	in := ic.input
 	if len(in) > markerSize/2 {
 		in = in[:markerSize/2]
@@ -692,7 +708,11 @@ func sanitizeName(s string) string {
 
 // workerMain runs one shard in this (child) process.
 func workerMain(j *job) {
-	debug.SetGCPercent(50)
+	if pf := os.Getenv("C17_PROF"); pf != "" {
+		f, _ := os.Create(pf)
+		pprof.StartCPUProfile(f)
+		defer pprof.StopCPUProfile()
+	}
 	c := findCodec(j.Codec)
 	if c == nil {
 		fmt.Fprintln(os.Stderr, "no such codec", j.Codec)
@@ -721,7 +741,15 @@ func workerMain(j *job) {
 			hbuf = hbuf[:0]
 		}
 	}
+	allocFindings := 0
 	one := func(idx int, ic *inputCase) {
+		if ic.big && (j.SkipBig || allocFindings >= 2) && j.ReplayIC == nil {
+			// the defect around long var-int prefixes is already reported for this
+			// decoder; every further such input costs seconds and gigabytes
+			res.Outcomes["skipped-after-finding"]++
+			res.Skipped++
+			return
+		}
 		mk.set(idx, ic)
 		a0 := allocated()
 		t0 := time.Now()
@@ -745,6 +773,9 @@ func workerMain(j *job) {
 			}
 		}
 		for _, f := range fs {
+			if f.Oracle == "allocation-over-ceiling" {
+				allocFindings++
+			}
 			if seenKeys[f.Key] {
 				continue
 			}
@@ -777,6 +808,7 @@ func workerMain(j *job) {
 	flush()
 	res.Done = true
 	res.CPUSec = procCPU(os.Getpid())
+	pprof.StopCPUProfile()
 	b, _ := json.Marshal(res)
 	if err := os.WriteFile(base+".result", b, 0o644); err != nil {
 		os.Exit(4)
@@ -812,7 +844,7 @@ func procCPU(pid int) float64 {
 }
 
 const (
-	hangCPUSeconds = 25.0  // CPU seconds a worker may spend on ONE input (typical: microseconds; slowest observed that terminates: ~3 s)
+	hangCPUSeconds = 40.0  // CPU seconds a worker may spend on ONE input (typical: microseconds; slowest observed that terminates: ~3 s)
 	stallWallSec   = 900.0 // safety net if the worker does not even consume CPU
 	maxRestarts    = 4
 )
@@ -886,6 +918,7 @@ func runShard(r *vk.Run, j job, deadline time.Time) shardOutcome {
 					so.res.MaxNs, so.res.MaxNsI = res.MaxNs, res.MaxNsI
 				}
 				so.res.CPUSec += res.CPUSec
+				so.res.Skipped += res.Skipped
 				so.findings = append(so.findings, res.Findings...)
 				return so
 			}
@@ -939,6 +972,7 @@ func runShard(r *vk.Run, j job, deadline time.Time) shardOutcome {
 		so.res.Evals += idx + 1 - int64(j.Start)
 		so.restarts++
 		j.Start = int(idx) + 1
+		j.SkipBig = true
 		if j.Replay != "" {
 			return so
 		}
@@ -1076,7 +1110,7 @@ func TestCheck(t *testing.T) {
 	var cEvals, cAccepted int64
 	var maxAlloc uint64
 	var maxAllocWhere, maxNsWhere string
-	var maxNs int64
+	var maxNs, skipped int64
 	restarts := 0
 	workers := runtime.NumCPU() - 2
 	if workers < 2 {
@@ -1109,6 +1143,7 @@ func TestCheck(t *testing.T) {
 			pc[0] += so.res.Evals
 			pc[1] += so.res.Accepted
 			pc[2] += int64(so.res.CPUSec * 1000)
+			skipped += so.res.Skipped
 			if so.res.MaxNs > maxNs {
 				maxNs, maxNsWhere = so.res.MaxNs, j.Codec+" "+so.res.MaxNsI
 			}
@@ -1170,6 +1205,7 @@ func TestCheck(t *testing.T) {
 		"per_codec":            perCodecOut,
 		"worker_shards":        len(jobs),
 		"worker_restarts":      restarts,
+		"inputs_skipped_after_a_finding": skipped,
 		"max_single_decode_allocation_bytes": maxAlloc,
 		"max_single_decode_allocation_where": maxAllocWhere,
 		"slowest_single_input_ms":            maxNs / 1e6,
